@@ -121,6 +121,9 @@ pub fn gen_proj(rng: &mut Rng, allow_cycles: bool) -> Proj {
         let ne = match rng.below(6) { 0 => 0, 1..=3 => 1, _ => 2 };
         for _ in 0..ne { let x = pick_in(rng, true); b.expl.push(x); }
         if rng.chance(1, 3) { let x = pick_in(rng, true); b.impl_.push(x); }
+        // one input repeated many times (long input lists cost want_file one level of recursion
+        // per position in the model: this is the shape that exposed its old fuel bound)
+        if rng.chance(1, 30) { let x = pick_in(rng, true); for _ in 0..rng.range(20, 70) { b.expl.push(x.clone()); } }
         if rng.chance(1, 3) { let x = pick_in(rng, true); b.oo.push(x); }
         if rng.chance(1, 4) { let x = pick_in(rng, false); b.val.push(x); if rng.chance(1, 4) { let y = pick_in(rng, false); b.val.push(y); } }
         b.pool = match rng.below(10) {
